@@ -236,6 +236,21 @@ def r4(ctx):
         if ok and (not reach or always_passes(db, reach)):
             ok = False
         ctx.inst(R, "barrier-drop:unregisters", ok, db.span, "dropping the barrier removes it from the registry" if ok else "Drop for Barrier does not unregister its id")
+    # the id the handle keeps is the id that was registered: one id is drawn in Barrier::build and goes into both values - with two
+    # draws Drop removes nothing, the dead entry stays first in the registry and swallows every later matching trigger on the thread
+    bd = ctx.w.bodies.get("turmoil::barriers::Barrier::build")
+    if bd:
+        draws = [t for fb in ctx.w.family(bd.id) for bb, t in fb.calls(re.compile(r"^uuid::Uuid::new_v4$"))]
+        ids = []
+        for bb, i, s2 in bd.all_stmts():
+            r = s2["r"]
+            if i != "term" and r["k"] == "agg" and r.get("adt") in ("turmoil::barriers::BarrierState", "turmoil::barriers::Barrier") and "id" in list(r.get("fields", [])):
+                og = origin(bd, r["ops"][list(r["fields"]).index("id")])
+                ids.append(og.get("bb") if og.get("k") == "call" else None)
+        same = len(draws) == 1 and len(ids) == 2 and ids[0] is not None and ids[0] == ids[1]
+        ctx.inst(R, "build:registered-id-is-the-handle-id", same, draws[-1]["s"] if draws else bd.span, "one id is drawn and shared by the registry entry and the handle" if same else
+                 "Barrier::build gives the registry entry and the handle different ids: dropping the barrier unregisters nothing - the stale entry outlives the barrier and, on a second "
+                 "simulation on the same thread, takes every matching trigger before the live barrier sees it")
     rd = ctx.body(R, BR + "drop")
     if rd:
         ok = False
